@@ -378,7 +378,12 @@ impl<'repo> CommitRewriter<'repo> {
             .map(|parent| parent.tree_ids().clone())
             .collect_vec();
 
-        let (was_empty, new_tree) = if new_parent_trees == old_parent_trees {
+        // The merged parent tree of a merge commit depends on the parents'
+        // ancestry, not only on their trees, so equal lists of parent trees
+        // imply an unchanged base only for a single parent (or the same parents).
+        let is_base_trivially_unchanged = new_parent_trees == old_parent_trees
+            && (old_parents.len() == 1 || self.new_parents == self.old_commit.parent_ids());
+        let (was_empty, new_tree) = if is_base_trivially_unchanged {
             (
                 // Optimization: was_empty is only used for newly empty, but when the
                 // parents haven't changed it can't be newly empty.
@@ -394,30 +399,35 @@ impl<'repo> CommitRewriter<'repo> {
             let new_base_tree_fut = merge_commit_trees(self.mut_repo, &new_parents);
             let old_tree = self.old_commit.tree();
             let (old_base_tree, new_base_tree) = try_join!(old_base_tree_fut, new_base_tree_fut)?;
-            (
-                old_base_tree.tree_ids() == self.old_commit.tree_ids(),
-                MergedTree::merge(Merge::from_vec(vec![
-                    (
-                        new_base_tree,
-                        format!(
-                            "{} (rebase destination)",
-                            conflict_label_for_commits(&new_parents)
+            if old_base_tree.tree_ids_and_labels() == new_base_tree.tree_ids_and_labels() {
+                // The merged parents are unchanged, so is the commit's tree.
+                (old_base_tree.tree_ids() == old_tree.tree_ids(), old_tree)
+            } else {
+                (
+                    old_base_tree.tree_ids() == self.old_commit.tree_ids(),
+                    MergedTree::merge(Merge::from_vec(vec![
+                        (
+                            new_base_tree,
+                            format!(
+                                "{} (rebase destination)",
+                                conflict_label_for_commits(&new_parents)
+                            ),
                         ),
-                    ),
-                    (
-                        old_base_tree,
-                        format!(
-                            "{} (parents of rebased revision)",
-                            conflict_label_for_commits(&old_parents)
+                        (
+                            old_base_tree,
+                            format!(
+                                "{} (parents of rebased revision)",
+                                conflict_label_for_commits(&old_parents)
+                            ),
                         ),
-                    ),
-                    (
-                        old_tree,
-                        format!("{} (rebased revision)", self.old_commit.conflict_label()),
-                    ),
-                ]))
-                .await?,
-            )
+                        (
+                            old_tree,
+                            format!("{} (rebased revision)", self.old_commit.conflict_label()),
+                        ),
+                    ]))
+                    .await?,
+                )
+            }
         };
         // Ensure we don't abandon commits with multiple parents (merge commits), even
         // if they're empty.
